@@ -16,7 +16,22 @@ CFG = {
             "{HTTP/1.0, HTTP/1.1} x {well-formed, no version, unknown method, header without colon, bad length}; each "
             "delivered one request per segment, all in ONE segment, one byte per segment, at random cuts, at every "
             "single split point (short streams), and with an idle gap past the timeout before/between/after requests; "
-            "WebSocket upgrade requests. Observed: every write (Date normalised after checking it is a well-formed "
+            "WebSocket upgrade requests. LARGE DIMENSIONS (own block, case lines in compact form: `d<hex>*<n>` = a segment repeated, "
+            "`Y<n>.<hex>` = a block of bytes repeated, `Z<len>.<seed>` = a pseudo-random pattern, `b…` bytewise, `s<k>:…` k-byte "
+            "segments; equal consecutive responses come back run-length encoded `e*n`): (1) long keep-alive sessions of 99..101, "
+            "127..129, 255..257, 300, 511..513, 1000, 1023..1025, 2049 requests on ONE connection (thorough: 63..8193, 39 lengths, "
+            "3 variants each up to 1100), built of 1..3 blocks of identical well-formed keep-alive requests (8 kinds: routed, "
+            "404, OPTIONS, echo with body, HTTP/1.0, host-specific, CORS) followed by nothing / a closing request / a request "
+            "without Connection / a malformed one / a panicking handler; each delivered one request per segment, all in ONE segment, "
+            "in fixed-size segments (7..65536 bytes), bytewise (up to 300 requests, thorough 1100), and with a configured timeout "
+            "and an idle gap after the session or after its first block; (2) 4 (thorough 40) sessions of 100..400 VARIED well-formed "
+            "keep-alive requests, per request / coalesced / random cuts / fixed-size segments; (3) one request with a Content-Length "
+            "body of 65536, 65537, 262144, 262145, 300017, 1048577 bytes (thorough: 18 sizes from 65535 to 4 MiB+1) followed by a "
+            "second request, to small-answer targets and (up to 64 KiB+1, thorough ~300 KB) the echoing route: one segment, "
+            "head|body|next, 1460..262144-byte segments, segments straddling head/body and body/next, a pause inside the body "
+            "with the timeout armed; (4) a request of 64, 100, 128, 257, 1000 (thorough: 31..2048) field lines, distinct or all "
+            "same-named, inside a session. A share of (1)-(4) (sessions of 101, 257, 1025 requests; thorough up to 4097; every "
+            "second body size; the coalesced form of (4)) also runs against the tokio runtime on a real socket, where byte streams above 8 KiB are compared by length and FNV-1a hash. Observed: every write (Date normalised after checking it is a well-formed "
             "IMF-fixdate within 5 s), the requests handed to handlers, the WebSocket hand-off, panic. Compared with "
             "the Lean model byte for byte and judged by Spec.checkConn. Non-trivial = at least two requests on the "
             "connection; distinct = distinct case line.",
@@ -27,7 +42,7 @@ CFG = {
                      "the scripted socket (harness MockConn): reads return the scripted chunks, an idle event is a WouldBlock when a timeout is armed",
                      "DateTime::now is observed only as 'well-formed and recent'"],
     "assumptions": ["handlers set no Content-Length/Connection/Date/Server themselves (targets of the quantifier)",
-                    "tokio runtime: a share of the connections (no timeout/idle/upgrade cases) is repeated against the real tokio App::run on a loopback port through the second harness binary hvt; only the bytes a client sees are compared there (no dispatch log, no scripted segmentation: the kernel may coalesce writes, which the segmentation-independence theorem makes harmless)",
+                    "tokio runtime: a share of the connections (no timeout/idle/upgrade cases) is repeated against the real tokio App::run on a loopback port through the second harness binary hvt; only the bytes a client sees are compared there (no dispatch log, no scripted segmentation: the kernel may coalesce writes, which the segmentation-independence theorem makes harmless); the client there reads while it writes, and only what the server sent BEFORE the client closed its sending direction (300 ms of silence after the last byte; repeated with 2 s and 8 s when something arrives only after the close) counts as sent",
                     "cross-connection isolation of a handler panic is C08's theorem (panic_isolated), not shown here"],
     "extra_harness": ["harness-tokio"],
     "design_ref": "6.1",
